@@ -43,6 +43,16 @@ def all_units():
     return sorted(os.path.basename(p)[:-3] for p in glob.glob(os.path.join(VERIF, 'units', '*.vu')))
 
 
+def enabled_units():
+    """Units integrated into the property checks (units/ENABLED, one name per line).  A unit under
+    development is verified with `./check --unit` but does not take part in `./check Cxx`."""
+    p = os.path.join(VERIF, 'units', 'ENABLED')
+    if not os.path.exists(p):
+        return all_units()
+    names = [l.strip() for l in open(p) if l.strip() and not l.startswith('#')]
+    return [u for u in names if u in all_units()]
+
+
 def unit_template_text(unit):
     """Template text with includes expanded (for label scanning)."""
     items = extract.expand_includes(extract.read_template(os.path.join(VERIF, 'units', unit + '.vu')), set())
@@ -66,7 +76,7 @@ def props_of_label(lab):
 
 def units_for_property(pid):
     res = []
-    for u in all_units():
+    for u in enabled_units():
         txt = unit_template_text(u)
         hit = False
         for no, labs in extract.labels_in(txt):
